@@ -382,7 +382,7 @@ func checkC15(ck *Check) {
 				why = append(why, "the update happens inside the search loop")
 			}
 			for _, e := range loop.Exits {
-				if e[0] == loop.Header {
+				if loop.exhaustionExit(e[0]) {
 					continue
 				}
 				src := ctx.BlockPC(e[0])
@@ -725,6 +725,9 @@ func (ck *Check) deleteIdiom(rule string, us *updSite, loop *Loop, match *Term) 
 			} else {
 				why = "swap-delete: the element at the matched index is not overwritten with the last element before truncating by one"
 			}
+		case removeAtCall(ck, hdrStore.Val, isIdx, func(v ssa.Value) bool { return taints(ctx.Term(v)) }):
+			// Spec.Taints = removeAt(Spec.Taints, i) through a repo helper (or slices.Delete(s, i, i+1))
+			okv = true
 		case hv.Kind == "call" && hv.Name == "append":
 			// splice: append(s[:i], s[i+1:]...)
 			if ap, ok := hdrStore.Val.(*ssa.Call); ok {
@@ -986,7 +989,7 @@ func (ck *Check) existsPredicate(rule string, fn *ssa.Function, listField, field
 	}
 	for _, l := range loopsOf(fn) {
 		for _, e := range l.Exits {
-			if e[0] != l.Header {
+			if !l.exhaustionExit(e[0]) {
 				if r, ok := e[1].Instrs[len(e[1].Instrs)-1].(*ssa.Return); ok {
 					if k, ok := r.Results[len(r.Results)-1].(*ssa.Const); ok && k.Value.String() == "true" {
 						continue
@@ -1137,7 +1140,7 @@ func (ck *Check) affinityFilter(rule string, fn, isDS, unwrap *ssa.Function) {
 	var overs []string
 	for _, l := range loopsOf(fn) {
 		for _, e := range l.Exits {
-			if e[0] != l.Header {
+			if !l.exhaustionExit(e[0]) {
 				if r, ok := e[1].Instrs[len(e[1].Instrs)-1].(*ssa.Return); ok {
 					if kc, ok := r.Results[0].(*ssa.Const); ok && kc.Value.String() == "true" {
 						continue
@@ -1321,7 +1324,7 @@ func (ck *Check) filterCollect(fn *ssa.Function, ctx *Ctx, slice ssa.Value, dept
 		return nil, nil, ""
 	}
 	// PC(append) ⇔ body ∧ f(elem) for a call of a function value f
-	body := And(ctx.BlockPC(l.Header), ctx.edgeCond(l.Header, l.Header.Succs[0]))
+	body := l.bodyPC(ctx)
 	var fa, fv *Term
 	for _, b := range fn.Blocks {
 		for _, in := range b.Instrs {
@@ -1393,7 +1396,7 @@ func (ck *Check) untaintAgreement(rule string) {
 		var why []string
 		found := false
 		for _, e := range loop.Exits {
-			if e[0] == loop.Header {
+			if loop.exhaustionExit(e[0]) {
 				continue
 			}
 			pc := And(ctx.BlockPC(e[0]), ctx.edgeCond(e[0], e[1]))
@@ -1938,7 +1941,7 @@ func (ck *Check) existsSummary(fn *ssa.Function) *existsSum {
 		return nil
 	}
 	for _, e := range loop.Exits {
-		if e[0] == loop.Header {
+		if loop.exhaustionExit(e[0]) {
 			continue
 		}
 		r, ok := e[1].Instrs[len(e[1].Instrs)-1].(*ssa.Return)
@@ -3389,4 +3392,134 @@ func (ck *Check) removalIdiom(rule, key string, fn *ssa.Function, ctx *Ctx, fetc
 		}
 	}
 	ck.cond(okv && hdrStore != nil && dominatesInstr(hdrStore, commit), rule, key+"/idiom", ck.P.instrPos(commit), funcID(fn), "exactly one element — the matched one — is removed from Spec.Taints before the Update", "", why)
+}
+
+// removeAtCall: v is the result of removing exactly the element at an index the caller matched from
+// the list it holds: a call h(list, i) of a repo helper summarised by removeAtSummary, or
+// slices.Delete(list, i, i+1).
+func removeAtCall(ck *Check, v ssa.Value, isIdx func(ssa.Value) bool, isList func(ssa.Value) bool) bool {
+	c, ok := v.(*ssa.Call)
+	if !ok {
+		return false
+	}
+	g := c.Common().StaticCallee()
+	if g == nil {
+		return false
+	}
+	args := c.Common().Args
+	if pkgPathOfFn(g) == "slices" && strings.HasPrefix(g.Name(), "Delete") && len(args) == 3 {
+		if !isList(args[0]) || !isIdx(args[1]) {
+			return false
+		}
+		bo, ok := args[2].(*ssa.BinOp)
+		if !ok || bo.Op != token.ADD || !isIdx(bo.X) {
+			return false
+		}
+		k, ok := bo.Y.(*ssa.Const)
+		return ok && k.Value != nil && k.Int64() == 1
+	}
+	if !ck.P.inRepo(g) || g.Blocks == nil {
+		return false
+	}
+	si, ii, ok := removeAtSummary(g)
+	if !ok || si >= len(args) || ii >= len(args) {
+		return false
+	}
+	return isList(args[si]) && isIdx(args[ii])
+}
+
+// removeAtSummary: h(…, s []T, …, i int, …) []T returns s without the element at i and nothing
+// else happens: `s[i] = s[len(s)-1]; return s[:len(s)-1]` (one store, the swap) or
+// `return append(s[:i], s[i+1:]...)`. Returns the parameter positions of s and i.
+func removeAtSummary(h *ssa.Function) (int, int, bool) {
+	si, ii := -1, -1
+	for k, prm := range h.Params {
+		if _, isSl := prm.Type().Underlying().(*types.Slice); isSl {
+			if si >= 0 {
+				return 0, 0, false
+			}
+			si = k
+		}
+		if isInteger(prm.Type()) {
+			if ii >= 0 {
+				return 0, 0, false
+			}
+			ii = k
+		}
+	}
+	if si < 0 || ii < 0 || h.Signature.Results().Len() != 1 || len(loopsOf(h)) != 0 {
+		return 0, 0, false
+	}
+	S, I := ssa.Value(h.Params[si]), ssa.Value(h.Params[ii])
+	isLast := func(v ssa.Value) bool { // len(s) - 1
+		bo, ok := v.(*ssa.BinOp)
+		if !ok || bo.Op != token.SUB {
+			return false
+		}
+		k, ok := bo.Y.(*ssa.Const)
+		if !ok || k.Value == nil || k.Int64() != 1 {
+			return false
+		}
+		lc, ok := isBuiltinCall(bo.X, "len")
+		return ok && lc.Common().Args[0] == S
+	}
+	var stores []*ssa.Store
+	var rets []*ssa.Return
+	for _, b := range h.Blocks {
+		for _, in := range b.Instrs {
+			switch x := in.(type) {
+			case *ssa.Store:
+				stores = append(stores, x)
+			case *ssa.Return:
+				rets = append(rets, x)
+			case *ssa.Call:
+				if _, isB := x.Common().Value.(*ssa.Builtin); !isB {
+					return 0, 0, false
+				}
+			case *ssa.MapUpdate, *ssa.Send, *ssa.Go, *ssa.Defer:
+				return 0, 0, false
+			}
+		}
+	}
+	if len(rets) != 1 {
+		return 0, 0, false
+	}
+	rv := rets[0].Results[0]
+	// swap with the last, truncate by one
+	if sl, ok := rv.(*ssa.Slice); ok && sl.X == S && sl.Max == nil && isLast(sl.High) {
+		if k, isK := sl.Low.(*ssa.Const); sl.Low != nil && !(isK && k.Int64() == 0) {
+			return 0, 0, false
+		}
+		if len(stores) != 1 {
+			return 0, 0, false
+		}
+		st := stores[0]
+		ia, ok := st.Addr.(*ssa.IndexAddr)
+		if !ok || ia.X != S || ia.Index != I || !dominatesInstr(st, rets[0]) {
+			return 0, 0, false
+		}
+		ld, ok := st.Val.(*ssa.UnOp)
+		if !ok || ld.Op != token.MUL {
+			return 0, 0, false
+		}
+		src, ok := ld.X.(*ssa.IndexAddr)
+		if !ok || src.X != S || !isLast(src.Index) {
+			return 0, 0, false
+		}
+		return si, ii, true
+	}
+	// append(s[:i], s[i+1:]...)
+	if ap, ok := isBuiltinCall(rv, "append"); ok && len(stores) == 0 {
+		x, y := ap.Common().Args[0], ap.Common().Args[1]
+		sx, okx := x.(*ssa.Slice)
+		sy, oky := y.(*ssa.Slice)
+		if okx && oky && sx.X == S && sy.X == S && sx.High == I && sx.Low == nil && sy.High == nil {
+			if bo, ok := sy.Low.(*ssa.BinOp); ok && bo.Op == token.ADD && bo.X == I {
+				if k, ok := bo.Y.(*ssa.Const); ok && k.Value != nil && k.Int64() == 1 {
+					return si, ii, true
+				}
+			}
+		}
+	}
+	return 0, 0, false
 }
